@@ -16,7 +16,7 @@ from . import universe as U
 
 K_ONE = {
     'expr': [('x', 'expr'), ('a + b', 'expr'), ('lambda: 0', 'expr'), ('a if b else c', 'expr'), ('a, b', 'expr'),
-             ('x := y', 'expr'), ('f(a,\n  b)', 'expr'), ("'é'", 'expr'), ('(p, # c9\n q)', 'expr'), ('yield', 'expr'),
+             ('(a + b)', 'expr'), ('x := y', 'expr'), ('f(a,\n  b)', 'expr'), ("'é'", 'expr'), ('(p, # c9\n q)', 'expr'), ('yield', 'expr'),
              ('*s', 'expr'), ('not a', 'expr'), ('[i for i in j]', 'expr'), ('a.b[c]', 'expr'), ('-1', 'expr')],
     'stmt': [('pass', 'stmt'), ('x = 1', 'stmt'), ('if a:\n    b\nelse:\n    c', 'stmt'), ('def g(): pass', 'stmt'),
              ('y = 2  # cmt', 'stmt'), ('# pre\nz = 3', 'stmt'), ("'''doc'''", 'stmt'), ('for i in j:\n  k', 'stmt'),
